@@ -211,6 +211,9 @@ def report_check(ctx, rng, spec, gkind, tol, max_iter, ffp):
     g2 = M.build(spec)
     verbose = bool(rng.random() < 0.5)
     out = ""
+    import time as _time
+
+    wall0 = _time.time()
     try:
         if verbose:
             res, out = M.quiet_optimize(g2, tol=tol, max_iter=max_iter, fix_first_pose=ffp, verbose=True)
@@ -219,6 +222,7 @@ def report_check(ctx, rng, spec, gkind, tol, max_iter, ffp):
     except Exception as ex:
         ctx.check("stopping-rule", False, dict(feats, exception=type(ex).__name__), {"message": str(ex)[:300]}, case)
         return None
+    wall = _time.time() - wall0
     if amb:
         ctx.count("ambiguous_decision(both continuations accepted)")
     # (1) exact: the documented rule applied to the chi2 values the run *itself* reports decides where it had to stop and what it had to say.
@@ -271,7 +275,8 @@ def report_check(ctx, rng, spec, gkind, tol, max_iter, ffp):
     # every iteration record (the incomplete last one of an early stop included) carries its own non-negative duration, and together they do not
     # exceed the duration of the whole call
     dur_ok = res.duration_s is not None and res.duration_s >= 0 and all((r.duration_s is not None and r.duration_s >= 0) for r in res.iteration_results) and \
-        sum(float(r.duration_s) for r in res.iteration_results if r.duration_s is not None) <= float(res.duration_s) * (1 + 1e-6) + 1e-3
+        sum(float(r.duration_s) for r in res.iteration_results if r.duration_s is not None) <= float(res.duration_s) * (1 + 1e-6) + 1e-3 and \
+        float(res.duration_s) <= wall + 1e-3  # ... which in turn cannot exceed the wall time the harness measured around the call
     ctx.check("durations-present", dur_ok, feats, None, case)
     # verbose does not alter
     g3 = M.build(spec)
@@ -293,6 +298,10 @@ def report_check(ctx, rng, spec, gkind, tol, max_iter, ffp):
         for j, row in enumerate(rows):
             try:
                 ok_print = ok_print and int(row[0]) == j and (float(row[1]) == float("%.4f" % own[j]) or (own[j] != own[j] and row[1] == "nan"))
+                if j >= 1:
+                    # third column: the relative change of that iteration as the report records it (6 decimals)
+                    rd = printer.iteration_results[j - 1].rel_diff
+                    ok_print = ok_print and len(row) >= 3 and rd is not None and ((rd != rd and row[2] == "nan") or float(row[2]) == float("%.6f" % rd))
             except ValueError:
                 ok_print = False
     ctx.check("printed-table-matches-report", ok_print, feats, {"rows": rows[:6], "trace": chi[: stop + 1]}, case)
